@@ -435,11 +435,30 @@ def run(tier, seed):
         "exhaustive": not capped,
         "exhaustive_note": "every schedule within the stated deviation bound of every listed configuration was run" if not capped else "execution caps hit, see caps_hit",
         "caps_hit": capped, "configurations": len(plan_items), "executions_by_bound": by_bound, "termination_statuses": statuses,
-        "samples": [plan_items[0][0], plan_items[len(plan_items) // 2][0], plan_items[-1][0]],
+        "samples": sample_executions(plan_items),
     }
     res.assumptions = ["thread switches only at scheduling points", "firmware model: one terminal reply per statement, replies delivered in order",
                        "time-outs of Event.wait never fire; serial read time-outs and sleeps are yields", "greetings other than none/'start' are not covered"]
     return res
+
+
+def sample_executions(plan_items):
+    """Two executions written out: the default schedule of a faulty configuration and one of its one-deviation neighbours."""
+    out = []
+    pick = [p for p in plan_items if p[1] >= 1][:1] or plan_items[:1]
+    for cfg, bound, cap in pick:
+        for prefix in ([], None):
+            if prefix is None:
+                ex0, _, _ = run_execution(cfg, [])
+                tr = ex0.S.trace
+                i = next((i for i in range(len(tr) // 2, len(tr)) if tr[i][1] > 1), None)
+                if i is None:
+                    continue
+                prefix = [c for c, _, _ in tr[:i]] + [1]
+            ex, marks, _ = run_execution(cfg, prefix)
+            out.append({"cfg": cfg, "schedule_prefix_nondefault_choices": [(i, c) for i, c in enumerate(prefix) if c], "choice_points": len(ex.S.trace),
+                        "status": ex.S.status, "wire": [list(x) for x in ex.dev.log][:40]})
+    return out
 
 
 def replay(body):
